@@ -1,7 +1,4 @@
-"""Per-property configuration of ./check (streams = harness binary + replay driver pairs)."""
-
-PROPS = {
-    'C15': dict(
+CONFIG = dict(
         level='proof',
         streams=[dict(harness='c15', driver='c15', shrink_field='ops')],
         rule='operation sequences on one toposort.Graph (AddNode/AddEdge/RemoveEdge/ReindexNode, then Toposort on a copy x5, FindCycle, '
@@ -12,5 +9,4 @@ PROPS = {
         assumptions=['node names are fixed-width so that Go string order equals numeric order of the model',
                      'FindCycle/FindParents/BreadthSort iterate Go maps: the model fixes one order; only order-independent facts are compared (validity of the returned cycle, emptiness, parent set)'],
         trusted_base=['hand-written Gallina model coq/theories/Toposort/Model.v of internal/toposort/toposort.go, tied to the code by the replay of every harness case'],
-    ),
-}
+    )
